@@ -166,6 +166,14 @@ func (s *RefreshableFileDataSource) watchAgain() bool {
 	_ = s.watcher.Remove(s.sourceFilePath)
 	retryCount := 0
 	for {
+		select {
+		case <-s.closeChan:
+			// Close() was called while the retries were under way: it is waiting for this goroutine, which is
+			// the only one that receives from closeChan (and which would otherwise leave, when the retries have
+			// failed, without ever receiving)
+			return false
+		default:
+		}
 		if retryCount > 5 {
 			logging.Error(errors.New("retry failed"), "Fail to retry watch", "sourceFilePath", s.sourceFilePath)
 			s.Close()
